@@ -1249,18 +1249,32 @@ func (s *State) evalInfixExpression(operator token.Type, left, right object.Obje
 	}
 }
 
+// repeatLen returns l*count for the repeat operators, saturating at math.MaxInt instead of
+// wrapping around, so that the memory guard sees a size it will refuse rather than a small
+// (or zero) wrapped product. count must be >= 0.
+func repeatLen(l int, count int64) int {
+	if l == 0 || count == 0 {
+		return 0
+	}
+	if count > int64(math.MaxInt/l) {
+		return math.MaxInt
+	}
+	return l * int(count)
+}
+
 func (s *State) evalStringInfixExpression(operator token.Type, left, right object.Object) object.Object {
 	leftVal := left.(object.String).Value
 	rightVal, rightIsInt := Int64Value(right)
 	switch {
 	case operator == token.PLUS && right.Type() == object.STRING:
 		rightVal := right.(object.String).Value
+		object.MustBeOk((len(leftVal) + len(rightVal)) / object.ObjectSize)
 		return object.String{Value: leftVal + rightVal}
 	case operator == token.ASTERISK && rightIsInt:
-		n := len(leftVal) * int(rightVal)
 		if rightVal < 0 {
 			return s.Errorf("right operand of * on strings must be a positive integer, got %d", rightVal)
 		}
+		n := repeatLen(len(leftVal), rightVal)
 		object.MustBeOk(n / object.ObjectSize)
 		return object.String{Value: strings.Repeat(leftVal, int(rightVal))}
 	default:
@@ -1281,7 +1295,7 @@ func (s *State) evalArrayInfixExpression(operator token.Type, left, right object
 		if rightVal < 0 {
 			return s.NewError("right operand of * on arrays must be a positive integer")
 		}
-		result := object.MakeObjectSlice(len(leftVal) * int(rightVal))
+		result := object.MakeObjectSlice(repeatLen(len(leftVal), rightVal))
 		for range rightVal {
 			result = append(result, leftVal...)
 		}
